@@ -119,6 +119,10 @@ func (r *reader) Consume(offset, maxCount int64) (int64, []message.Message, erro
 	if err != nil {
 		return OffsetInvalid, nil, err
 	}
+	if len(msgs) == 0 {
+		// the index has a message at this position, but the log ends before it
+		return OffsetInvalid, nil, fmt.Errorf("%w: no message at indexed position", message.ErrCorrupted)
+	}
 	return msgs[len(msgs)-1].Offset + 1, msgs, nil
 }
 
